@@ -64,7 +64,8 @@ def s_exact(draw, tier):
     rec = list(range(n)) + [draw(st.sampled_from(pairs))] + ([tuple(range(n))] if int(np.prod(ch["dims"])) <= 16 and n > 2 else [])
     return {"N": N, "dt": draw(st.sampled_from([0.05, 0.1, 0.3])), "order": draw(st.sampled_from([1, 2])),
             "chain": ch, "record": [list(r) if isinstance(r, tuple) else r for r in rec],
-            "tempo_site": draw(st.integers(0, n - 1)) if (fam == "uncoupled" and N >= 2 and draw(st.booleans())) else None}
+            "tempo_site": draw(st.integers(0, n - 1)) if (fam == "uncoupled" and N >= 2 and draw(st.booleans())) else None,
+            "vectorised_input": draw(st.booleans())}
 
 
 def _record(case):
@@ -90,7 +91,8 @@ def run_exact(case):
             oqupy.TempoParameters(dt=dt, epsrel=1e-10), progress_type="silent")
     else:
         tempo_site = None
-    teb = oqupy.PtTebd(oqupy.AugmentedMPS(rhos), chain, pts,
+    mps_in = [r.reshape(-1) for r in rhos] if case.get("vectorised_input") else rhos     # rank-1 = vectorised rho
+    teb = oqupy.PtTebd(oqupy.AugmentedMPS(mps_in), chain, pts,
                        oqupy.PtTebdParameters(dt=dt, epsrel=1e-12, order=case["order"]), dynamics_sites=record)
     res = teb.compute(N, progress_type="silent")
     out.nontrivial = n >= 3 or any(p is not None for p in pts)
